@@ -2,6 +2,7 @@ package checks
 
 import (
 	"fmt"
+	"sync"
 	"math/rand"
 	"sort"
 	"strings"
@@ -352,9 +353,54 @@ func c11Ageing(ev *vlib.Evidence, n int) {
 	}
 }
 
+// c11Concurrent: an observer's keep-alive races the keep-alive of a reported
+// peer whose last check-in is stale. Either order is fine, but the answer must
+// be consistent: a peer declared invalid is not tracked afterwards, and the
+// other way round.
+func c11Concurrent(ev *vlib.Evidence, driver string, s store.Store, idx int) {
+	pfx := fmt.Sprintf("cc%d-", idx)
+	o, p := store.NodeID(pfx+"o"), store.NodeID(pfx+"p")
+	s.SetNode(store.Node{ID: o, LastSeen: time.Now()})
+	s.SetNode(store.Node{ID: p, IsHost: true, LastSeen: time.Now().Add(-130 * time.Second)})
+	var wg sync.WaitGroup
+	var inactive []store.NodeID
+	var oerr error
+	wg.Add(2)
+	go func() { defer wg.Done(); inactive, oerr = s.UpdateNodePeers(o, []string{string(p)}, 1) }()
+	go func() { defer wg.Done(); s.UpdateNodePeers(p, nil, 1) }()
+	wg.Wait()
+	ev.Case(fmt.Sprintf("concurrent %s %d", driver, idx), true)
+	ev.Count("concurrent-keepalive-pairs", 1)
+	if oerr != nil {
+		ev.Violate("concurrent:"+driver+":keepalive-failed", map[string]interface{}{"err": oerr.Error()})
+		return
+	}
+	peers, _ := s.NodePeers(o)
+	tracked := false
+	for _, n := range peers {
+		if n.ID == p {
+			tracked = true
+		}
+	}
+	declared := 0
+	for _, id := range inactive {
+		if id == p {
+			declared++
+		}
+	}
+	if declared > 1 || (declared == 1) == tracked {
+		ev.Violate("concurrent:"+driver+":declared-invalid-and-tracked-disagree", map[string]interface{}{"driver": driver, "declared_invalid_times": declared, "still_tracked": tracked})
+	}
+	if declared == 1 {
+		ev.Count("concurrent-outcome:declared-invalid", 1)
+	} else {
+		ev.Count("concurrent-outcome:kept", 1)
+	}
+}
+
 func TestC11(t *testing.T) {
 	ev := vlib.NewEvidence("C11", "exploration",
-		"ageing: tracked stamps recorded 105-110 s old are aged past the window by one shared 21 s real wait, with peers that check in themselves without being re-reported, re-reported peers, empty and unknown-only reports, and a second keep-alive afterwards; store level: histories of one observer and 3-4 peers (SetNode with LastSeen ages {0,60,110,130,180,3600 s}, observer and peer keep-alives, unknown/duplicate/self ids) on both drivers vs the tracked-peer model; pool level: signed vipnode_update sessions (ids given directly or inside enode:// URIs) comparing InvalidPeers/ActivePeers/NodePeers with the model; non-trivial = at least one peer was declared invalid (store level: >=3 mutations); distinct = distinct histories")
+		"concurrent: an observer's keep-alive racing the keep-alive of a stale reported peer (declared-invalid and still-tracked must disagree); ageing: tracked stamps recorded 105-110 s old are aged past the window by one shared 21 s real wait, with peers that check in themselves without being re-reported, re-reported peers, empty and unknown-only reports, and a second keep-alive afterwards; store level: histories of one observer and 3-4 peers (SetNode with LastSeen ages {0,60,110,130,180,3600 s}, observer and peer keep-alives, unknown/duplicate/self ids) on both drivers vs the tracked-peer model; pool level: signed vipnode_update sessions (ids given directly or inside enode:// URIs) comparing InvalidPeers/ActivePeers/NodePeers with the model; non-trivial = at least one peer was declared invalid (store level: >=3 mutations); distinct = distinct histories")
 	ev.Assume("the 120 s window is only approached to ±10 s; cases longer than 5 s wall are inconclusive")
 	ageDone := make(chan struct{})
 	go func() { c11Ageing(ev, vlib.Scale(150, 2000)); close(ageDone) }()
@@ -399,6 +445,16 @@ func TestC11(t *testing.T) {
 			ev.Case(driver+desc, nontrivial)
 			ev.Count("pool-histories:"+driver, 1)
 		})
+	}
+	for _, driver := range vlib.Drivers() {
+		st, cleanup, err := vlib.OpenStore(driver)
+		if err != nil {
+			t.Fatal(err)
+		}
+		for i := 0; i < vlib.Scale(1500, 30000); i++ {
+			c11Concurrent(ev, driver, st, i)
+		}
+		cleanup()
 	}
 	<-ageDone
 	finish(t, ev)
